@@ -104,6 +104,8 @@ type c27World struct {
 	total0  *big.Int // online stake at round 0
 	noteN   uint64
 	keyN    byte
+	// keepLists: ordinary rounds of this case keep what the generator wants to knock offline (else dropped)
+	keepLists bool
 }
 
 func (w *c27World) name(a basics.Address) string {
@@ -510,7 +512,7 @@ func c27DrawPopulation(t *rapid.T, crowd int) c27Pop {
 			d.SelectionID[0], d.SelectionID[1] = 0x42, byte(i+1)
 			d.StateProofID[0], d.StateProofID[1] = 0x43, byte(i+1)
 			d.VoteKeyDilution = 10_000
-			d.VoteLastValid = basics.Round(rapid.SampledFrom([]int{3, 6, 12, 30, 70, 150, 1_000_000, 1_000_000, 1_000_000, 1_000_000}).Draw(t, "voteLast"))
+			d.VoteLastValid = basics.Round(rapid.SampledFrom([]int{3, 6, 12, 30, 70, 150, 1_000_000, 1_000_000, 1_000_000, 1_000_000, 1_000_000, 1_000_000}).Draw(t, "voteLast"))
 		}
 		switch status {
 		case "online":
@@ -564,13 +566,19 @@ func (w *c27World) popString() string {
 
 var c27OpKinds = []string{"hb", "hb", "keyreg-on", "keyreg-on-fee", "keyreg-off", "pay-in", "pay-in-double", "pay-out", "close"}
 
-func (w *c27World) drawOp(t *rapid.T, r basics.Round) c27Op {
+func (w *c27World) drawOp(t *rapid.T, r basics.Round, history bool) c27Op {
 	o := c27Op{Kind: rapid.SampledFrom(c27OpKinds).Draw(t, "op")}
 	nv := len(w.voters)
 	if nv > 10 {
 		nv = 10 // the crowd stays passive
 	}
-	o.Target = w.voters[rapid.IntRange(0, nv-1).Draw(t, "target")]
+	lo := 0
+	if history && nv > 3 && rapid.IntRange(0, 4).Draw(t, "spareWhales") != 0 {
+		// keyreg / doubling payments push LastHeartbeat 320 rounds ahead: an account touched that way can never be
+		// absent within a case, so the history mostly leaves the big accounts alone
+		lo = 3
+	}
+	o.Target = w.voters[rapid.IntRange(lo, nv-1).Draw(t, "target")]
 	o.Last = r + basics.Round(rapid.SampledFrom([]int{1, 2, 5, 20, 5000}).Draw(t, "voteLastD"))
 	return o
 }
@@ -596,7 +604,7 @@ func (w *c27World) fillerRound(t *rapid.T, vk *vkCtx, hist *[]string) {
 	v := w.newView(r)
 	desc := ""
 	if rapid.IntRange(0, 19).Draw(t, "fillerOp") == 0 {
-		o := w.drawOp(t, r)
+		o := w.drawOp(t, r, true)
 		if ok, _ := v.submit(ev, o); ok {
 			desc = w.opString(o)
 			vk.Label("history-op:" + o.Kind)
@@ -614,6 +622,16 @@ func (w *c27World) fillerRound(t *rapid.T, vk *vkCtx, hist *[]string) {
 		t.Fatalf("HARNESS: GenerateBlock: %v", err)
 	}
 	blk := ub.UnfinishedBlock().WithProposer(w.seed(r), prp, false)
+	if n := len(blk.ExpiredParticipationAccounts) + len(blk.AbsentParticipationAccounts); n > 0 {
+		// Mostly drop what the generator wants to knock offline (the lists need not be complete), so that accounts
+		// stay around until a test round; sometimes keep it (honest path).
+		if !w.keepLists {
+			blk.ParticipationUpdates = bookkeeping.ParticipationUpdates{}
+			vk.Label("filler:generator-lists-dropped")
+		} else {
+			vk.Label("filler:generator-lists-kept")
+		}
+	}
 	if err := w.commit(blk); err != nil {
 		t.Fatalf("C27 VIOLATION: honest block of round %d (lists %s / %s made by the generator) refused: %v", r,
 			w.listString(blk.ExpiredParticipationAccounts), w.listString(blk.AbsentParticipationAccounts), err)
@@ -691,6 +709,7 @@ func TestVerif_C27_Lists(t *testing.T) {
 		}
 		defer w.close()
 		vk.Label("proto:" + string(cv))
+		w.keepLists = rapid.IntRange(0, 4).Draw(rt, "keepGeneratorLists") == 0
 		if crowd > 0 {
 			vk.Label("crowd")
 		}
@@ -726,7 +745,7 @@ func c27TestRound(t *rapid.T, vk *vkCtx, w *c27World, hist *[]string) {
 	v := w.newView(r)
 	var ops []string
 	for i, n := 0, rapid.SampledFrom([]int{0, 0, 1, 1, 2, 3}).Draw(t, "blockOps"); i < n; i++ {
-		o := w.drawOp(t, r)
+		o := w.drawOp(t, r, false)
 		if ok, _ := v.submit(ev, o); ok {
 			ops = append(ops, w.opString(o))
 			vk.Label("block-op:" + o.Kind)
@@ -759,6 +778,11 @@ func c27TestRound(t *rapid.T, vk *vkCtx, w *c27World, hist *[]string) {
 		} else {
 			absBad[why] = append(absBad[why], a)
 		}
+	}
+	if vkEnv("VERIF_C27_DEBUG", "") != "" {
+		why := w.absentWhy(w.voters[0], v.get(w.voters[0]), r)
+		vk.Label("debug-whale0:" + why)
+		vk.Labelf("debug-round:%d", (int(r)/20)*20)
 	}
 	// boundary bookkeeping (labels only)
 	for _, a := range w.voters {
